@@ -13,9 +13,11 @@ package main
 // (pointerReach), and for each such struct type the fields that functions of the package assign
 // (fieldWrites: `x.f = …`, `x.f op= …`, `x.f++` with x of that type or a pointer to it, outside
 // init). A variable reaching a struct type with written fields holds values that a build can
-// mutate through a pointer obtained from it: state shared by all builds of the process. The known
-// finding history-universe-bool is of that kind (universe → scopeName → *typeInfo, written by
-// typeInfo.setValue and emitter.ti).
+// mutate through a pointer obtained from it: state shared by all builds of the process. The
+// finding history-universe-bool was of that kind (universe → scopeName → *typeInfo, written by
+// typeInfo.setValue and emitter.ti; cured by bb933ad: checkIdentifier records a copy of the type
+// info of a constant for every use — which a type-based reach cannot see, so that the two
+// variables stay listed).
 
 import (
 	"fmt"
